@@ -16,7 +16,7 @@ from engine.symx import GuardedList, Opaque, SBool, SInt, SObj, SStr, Sym
 
 
 class FakeFile:
-    pass
+    _verif_stub_ = True      # a member the stub lacks is a harness gap (exit 2), not an AttributeError of the program
 
 
 def new_file():
@@ -74,6 +74,18 @@ def install(eng):
     eng.stubs[json.load] = load
     eng.attr_stubs[('FakeFile', 'write')] = write
     eng.attr_stubs[('FakeFile', 'close')] = lambda e, o: symx.SymCallable(lambda: o.attrs.__setitem__('closed', True))
+    def flush(e, o):
+        def f():
+            if o.attrs['closed']:
+                raise symx.RaiseEx(ValueError('I/O operation on closed file.'))
+        return symx.SymCallable(f)
+
+    def writelines(e, o):
+        wr = write(e, o)
+        return symx.SymCallable(lambda lines: [wr(x) for x in lines] and None)
+    eng.attr_stubs[('FakeFile', 'flush')] = flush
+    eng.attr_stubs[('FakeFile', 'writelines')] = writelines
+    eng.attr_stubs[('FakeFile', 'writable')] = lambda e, o: symx.SymCallable(lambda: True)
     eng.attr_stubs[('FakeFile', '__enter__')] = lambda e, o: symx.SymCallable(lambda: o)
     eng.attr_stubs[('FakeFile', '__exit__')] = lambda e, o: symx.SymCallable(lambda *a: o.attrs.__setitem__('closed', True))
 
